@@ -9,7 +9,11 @@
   2. TLC exports behaviours of the as-is model as scenarios (environment choices + code-shaped expectation +
      predicted violated invariants): every single-cut behaviour (gen1), every two-cut behaviour of a reduced
      configuration (gen2), three-cut behaviours (gen3), scripts of up to six cuts in which progress and no
-     progress alternate (genI: the budget is per stretch without progress), and the single-cut table of the
+     progress alternate (genI: the budget is per stretch without progress), runs of k resumed bodies that end at
+     offset 0 for every k up to MaxRetries + 1 after progress was made (genR), the same runs against a STUCK server
+     that never relents (genK: the client must give up; TLC's Terminates is the same statement about the model),
+     every sequence of reconnect answers over the whole class of transient statuses {429, 500, 502, 503, 504}, the
+     transport error and the non-transient statuses {404, 403, 501} (genS), and the single-cut table of the
      13-event reference stream (gen1L) that is joined to the byte-level runs.
   3. harness/mcp/c09_streamcli_test.go runs them on a real mcp.Client over a real StreamableClientTransport
      with a scripted RoundTripper inside testing/synctest, plus EVERY byte offset of the reference bodies x
@@ -22,9 +26,16 @@ import vlib
 
 PID = "C09"
 TLC_WORKERS = 4
-WITNESSES = ("NeverResumed", "NeverExhausted", "NeverGaveUpAttempts", "NeverSynthetic", "NeverStandaloneDone")
+WITNESSES = ("NeverResumed", "NeverExhausted", "NeverGaveUpAttempts", "NeverSynthetic", "NeverStandaloneDone",
+             "NeverGaveUpOnStuck", "NeverRetriedStatus")
 ALL_CLASSES = '{"bnd", "field", "name", "id", "idfull", "data", "datafull"}'
-ALL_ANSWERS = '{"terr", "ok", "5xx", "404"}'
+# reconnect answers are values: "ok", "terr" (transport error) or an HTTP status.  The status class is enumerated
+# in full by genS / mc_status; the multi-cut configurations carry one transient and one non-transient member each
+# (a different one per configuration, so that no status is "the" representative of its class).
+TRANSIENT = ("429", "500", "502", "503", "504")
+NONTRANSIENT = ("404", "403", "501")
+ALL_ANSWERS = '{"terr", "ok", "503", "404"}'
+FULL_ANSWERS = '{"terr", "ok", %s}' % ", ".join('"%s"' % x for x in TRANSIENT + NONTRANSIENT)
 
 CFG_TMPL = """SPECIFICATION Spec
 CONSTANTS
@@ -36,6 +47,7 @@ CONSTANTS
   MaxCuts = %(cuts)d
   ClassSet = %(classes)s
   AnswerSet = %(answers)s
+  TailSet = %(tails)s
   FixScanner = %(fixscanner)s
   FixCursor = %(fixcursor)s
   Fix5xx = %(fix5xx)s
@@ -43,7 +55,8 @@ CONSTANTS
 CHECK_DEADLOCK FALSE
 """
 
-PROP_INVS = "INVARIANTS TypeOK InvExactlyOnce InvNoTruncated InvResumeCursor InvRealResponse InvCleanFailure\nPROPERTIES Terminates"
+PROP_INVS = ("INVARIANTS TypeOK InvExactlyOnce InvNoTruncated InvResumeCursor InvRealResponse InvCleanFailure InvBoundedRetries\n"
+             "PROPERTIES Terminates")
 ASIS_INVS = "INVARIANTS TypeOK InvCleanFailure InvNoTruncated\nPROPERTIES Terminates"
 
 
@@ -71,7 +84,7 @@ def tla_bool(b):
 def cfg_text(fix=None, **kw):
     """fix=None: the code as it stands (REPAIRED); fix="TRUE": the design the property asks for (all repairs)."""
     d = dict(kinds='{"post", "sa"}', shapes="AllShapes", schemes='{"dec", "nested"}', ms="{2, 3}", mrs="{0, 1, 2}",
-             cuts=2, classes=ALL_CLASSES, answers=ALL_ANSWERS, tail="INVARIANTS Export")
+             cuts=2, classes=ALL_CLASSES, answers=ALL_ANSWERS, tails='{"good"}', tail="INVARIANTS Export")
     if fix is None:
         d.update(fixscanner=tla_bool(REPAIRED["scanner"]), fixcursor=tla_bool(REPAIRED["cursor"]), fix5xx=tla_bool(REPAIRED["5xx"]))
     else:
@@ -97,7 +110,8 @@ REFS_THOROUGH = REFS_QUICK + [
     ("refL", ref("post", "all", "first", "dec", 12)),    # 13 events with the SDK server's id spelling: s_1 vs s_10..s_12
 ]
 
-PRIORITY = ["NoTruncatedSurfaced", "ExactlyOnceInOrder", "ScanNoTruncatedYielded", "ResumeCursor", "CleanFailure", "RealResponseWithinBudget"]
+PRIORITY = ["NoTruncatedSurfaced", "ExactlyOnceInOrder", "ScanNoTruncatedYielded", "ResumeCursor", "CleanFailure", "BoundedRetries",
+            "RealResponseWithinBudget"]
 KINDNAME = {"err": "readErr", "eof": "cleanEOF"}
 CLSNAME = {"bnd": "boundary", "field": "in-field", "name": "in-name", "id": "in-id", "idfull": "after-id",
            "data": "in-data", "datafull": "after-data", "none": "none"}
@@ -119,6 +133,26 @@ def script_of(exp):
 
 def ncuts(p):
     return sum(1 for b in p["exp"]["bodies"] if b["knd"] != "none")
+
+
+REPLAYED = ("gen1", "gen2", "gen3", "genI", "genR", "genK", "genS")
+
+
+def run_length(p):
+    """k if the behaviour is: a first body cut after an id had come across, then exactly k cut bodies that ended at
+    offset 0, then (possibly) whole bodies; None otherwise"""
+    b = p["exp"]["bodies"]
+    if len(b) < 2 or b[0]["knd"] == "none" or b[0]["c"] < 0:
+        return None
+    k = 0
+    for x in b[1:]:
+        if x["knd"] != "none" and x["cls"] == "bnd" and x["n"] == 0 and x["from"] < p["cfg"]["M"]:
+            k += 1
+        elif x["knd"] == "none" and x is b[-1]:
+            break
+        else:
+            return None
+    return k or None
 
 
 def abstract_class(p):
@@ -159,6 +193,18 @@ def good_cursors(bodies, i):
     return {c} | {b["d"] for b in bodies[:i + 1] if b["d"] >= c}
 
 
+def fruitless_tail(e):
+    """labelling only (the verdict is BoundedRetries / CleanFailure in StreamCli.tla): how many bodies in a row, up to
+    the last one served, were cut without a new id having come across"""
+    bodies, k = e["bodies"], 0
+    for i in range(len(bodies) - 1, -1, -1):
+        prev = bodies[i - 1]["c"] if i else -1
+        if bodies[i]["knd"] == "none" or bodies[i]["c"] != prev:
+            break
+        k += 1
+    return k
+
+
 def effect_of(inv, e):
     if inv == "NoTruncatedSurfaced":
         return "truncated-surfaced"
@@ -175,6 +221,8 @@ def effect_of(inv, e):
         return "bad-cursor"
     if inv == "CleanFailure":
         return "hang"
+    if inv == "BoundedRetries":
+        return "retries-unbounded"
     if inv == "RealResponseWithinBudget":
         o = e["outcome"]
         if o == "hang":
@@ -202,9 +250,13 @@ def context_of(inv, e):
         # the client stopped after the last thing the server did
         if recon and len(recon) == len(bodies) and recon[-1]["outs"] and recon[-1]["outs"][-1] != "ok":
             last = recon[-1]["outs"][-1]
-            if last in ("5xx", "terr") and inv in ("RealResponseWithinBudget", "CleanFailure"):
+            if (last in TRANSIENT or last == "terr") and inv in ("RealResponseWithinBudget", "CleanFailure"):
                 return "reconnect=" + last
         j = len(bodies) - 1
+        if inv in ("CleanFailure", "BoundedRetries") and fruitless_tail(e) > e["mr"] + 1:
+            # the client was still asking for the stream after more than MaxRetries + 1 bodies in a row had
+            # brought nothing new across
+            return "no-progress-beyond-budget"
     if j < 0:
         return "nobody"
     b = bodies[j]
@@ -315,12 +367,16 @@ def _run(tier, seed, replay, ctl):
         "(as the SDK's own server does for a malformed Last-Event-ID), and on a GET without Last-Event-ID continues after the last "
         "message it had at least partly written",
         "retry budget, read conservatively for the verdict: the real response is required when every reconnect sees fewer than "
-        "MaxRetries failed attempts (transport error or 5xx), no 404, and fewer than MaxRetries bodies IN A ROW end without a new id "
+        "MaxRetries failed attempts (transport error or a transient status: 429, 500, 502, 503, 504 - every member of the class), no "
+        "other status (404, 403, 501, 400), and fewer than MaxRetries bodies IN A ROW end without a new id "
         "(a body that brings a new id across starts a new stretch: the budget is per stretch without progress, not per logical stream); "
         "beyond that only a clean completion is required (the exact boundary is compared with the model as drift)",
         "an event whose content lines were all received when a body ended CLEANLY but whose blank line was not may or may not "
         "count as received: both resume cursors are accepted, on that reconnect and on later ones until a later id supersedes them "
         "(a client that counted it must also have delivered it, otherwise ExactlyOnceInOrder reports the loss)",
+        "the budget also bounds the client (BoundedRetries): after MaxRetries + 1 bodies in a row that brought no new id across it "
+        "has given up; a stuck server (every resumption answered 200 with a body that ends at offset 0, for ever) is part of the "
+        "environment, and a call still pending after one virtual hour of that is a hang",
         "SSE events are written as the SDK's writeEvent writes them (event, id, data, blank line); one data line per event",
         "TLC exhaustive results are for streams of 2-3 messages, MaxRetries 0-2, up to 2 cuts (3 in the reduced configuration)",
     ]
@@ -332,12 +388,17 @@ def _run(tier, seed, replay, ctl):
     red = '{"bnd", "id", "data", "datafull"}'   # with FixScanner every class inside an event behaves like "data"
     design, dres, derr = [], {}, []
     if not replay:
-        design += [("mc_fixed", 2, cfg_text(fix="TRUE", tail=PROP_INVS, ms="{2}" if quick else "{2, 3}", cuts=2,
+        both = '{"good", "stuck"}'
+        design += [("mc_fixed", 2, cfg_text(fix="TRUE", tail=PROP_INVS, ms="{2}" if quick else "{2, 3}", cuts=2, tails=both,
                                             schemes='{"nested"}' if quick else '{"dec", "nested"}',
                                             classes=red if quick else ALL_CLASSES)),
-                   ("mc_asis", 2, cfg_text(tail=ASIS_INVS, ms="{2}" if quick else "{2, 3}", cuts=2,
-                                           schemes='{"nested"}' if quick else '{"dec", "nested"}'))]
-        base = cfg_text(tail="", ms="{2}", cuts=2, schemes='{"dec"}', classes='{"bnd", "data"}')
+                   ("mc_asis", 2, cfg_text(tail=ASIS_INVS, ms="{2}" if quick else "{2, 3}", cuts=2, tails=both,
+                                           schemes='{"nested"}' if quick else '{"dec", "nested"}')),
+                   # the whole status class and longer budgets against the repaired design: every transient status is
+                   # retried within the budget, every run of fruitless bodies ends (also against a stuck server)
+                   ("mc_status", 1, cfg_text(fix="TRUE", tail=PROP_INVS, ms="{2}", mrs="{1, 2, 3}", cuts=2 if quick else 3, tails=both,
+                                             shapes="IdShapes", schemes='{"dec"}', classes='{"bnd", "data"}', answers=FULL_ANSWERS))]
+        base = cfg_text(tail="", ms="{2}", cuts=2, schemes='{"dec"}', classes='{"bnd", "data"}', tails=both)
         design += [("wit:" + w, 1, base.replace("CHECK_DEADLOCK", "INVARIANT %s\nCHECK_DEADLOCK" % w)) for w in WITNESSES]
 
     def run_design():
@@ -351,8 +412,8 @@ def _run(tier, seed, replay, ctl):
 
     # 2. behaviours exported by TLC
     jobs = [
-        ("gen1", 1, cfg_text(cuts=1)),
-        ("gen2", 1, cfg_text(cuts=2, shapes="TwoShapes", schemes='{"nested"}', ms="{2}", mrs="{1, 2}")),
+        ("gen1", 1, cfg_text(cuts=1, answers='{"terr", "ok", "500", "404"}')),
+        ("gen2", 1, cfg_text(cuts=2, shapes="TwoShapes", schemes='{"nested"}', ms="{2}", mrs="{1, 2}", answers='{"terr", "ok", "429", "403"}')),
         ("gen3", 1, cfg_text(cuts=3, shapes="PrimedShapes", schemes='{"dec"}', ms="{2}", mrs="{1, 2}",
                              classes='{"bnd", "idfull", "data"}' if quick else '{"bnd", "name", "idfull", "data", "datafull"}',
                              answers='{"terr", "ok"}')),
@@ -360,8 +421,19 @@ def _run(tier, seed, replay, ctl):
         # long scripts: bodies that bring a new id across alternate with bodies that bring none (up to 6 cuts), with
         # failed attempts in between: the budget is per stretch without progress, not per logical stream
         ("genI", 1, cfg_text(cuts=6, shapes="TwoShapes", schemes='{"dec"}', ms="{3}", mrs="{2}", classes='{"bnd"}',
-                             answers='{"terr", "ok", "5xx"}', tail="CONSTRAINT Interleaved\nINVARIANTS Export")),
+                             answers='{"terr", "ok", "504"}', tail="CONSTRAINT Interleaved\nINVARIANTS Export")),
+        # runs of k resumed bodies that end at offset 0 (200, then a read error or a clean EOF before the first event),
+        # k = 1 .. MaxRetries + 1 after a first cut anywhere, then a whole body: the client makes progress or gives up
+        ("genR", 1, cfg_text(cuts=5, shapes="IdShapes", schemes='{"dec"}', ms="{2}", mrs="{1, 2, 3}", classes='{"bnd", "data"}',
+                             answers='{"terr", "ok", "502"}', tail="CONSTRAINT Runs\nINVARIANTS Export")),
+        # the same against a stuck server: after two scripted cuts every later body ends at offset 0 too, for ever
+        ("genK", 1, cfg_text(cuts=2, shapes="IdShapes", schemes='{"dec"}', ms="{2}", mrs="{1, 2, 3}", classes='{"bnd", "data"}',
+                             answers='{"terr", "ok", "500"}', tails='{"stuck"}', tail="CONSTRAINT Runs\nINVARIANTS Export")),
+        # the status class: single cuts on event boundaries, every sequence of answers over every status
+        ("genS", 1, cfg_text(cuts=1, shapes="TwoShapes", schemes='{"dec"}', ms="{2}", mrs="{1, 2}" if quick else "{1, 2, 3}",
+                             classes='{"bnd"}', answers=FULL_ANSWERS)),
     ]
+    GEN = ("gen1", "gen2", "gen3", "gen1L", "genI", "genR", "genK", "genS")
     try:
         results = run_jobs(jobs, 3)
     except Exception:
@@ -375,12 +447,16 @@ def _run(tier, seed, replay, ctl):
             dthread.join()
             raise vlib.MachineryError("StreamCli.tla %s failed (%s)" % (name, res.violation))
     exported = {}
-    for name in ("gen1", "gen2", "gen3", "gen1L", "genI"):
+    for name in GEN:
         ps = [p for p in results[name].printed if isinstance(p, dict) and "exp" in p and "cfg" in p]
+        if name == "genK":
+            # only behaviours in which the stuck tail was engaged (the others are behaviours of the good server)
+            ps = [p for p in ps if ncuts(p) > 2]
         ps.sort(key=lambda p: json.dumps(p, sort_keys=True))
         exported[name] = ps
     t_tlc = time.time() - v.t0
-    if len(exported["gen1"]) < 5000 or len(exported["gen2"]) < 5000 or len(exported["gen3"]) < 1000:
+    if len(exported["gen1"]) < 5000 or len(exported["gen2"]) < 5000 or len(exported["gen3"]) < 1000 or \
+            len(exported["genR"]) < 200 or len(exported["genK"]) < 100 or len(exported["genS"]) < 300:
         raise vlib.MachineryError("TLC exported too few behaviours: %s" % {k: len(x) for k, x in exported.items()})
     v.cov["behaviours_exported"] = {k: len(x) for k, x in exported.items()}
     v.cov["leads_predicted_by_model"] = {k: sum(1 for p in x if p["viol"]) for k, x in exported.items()}
@@ -410,12 +486,25 @@ def _run(tier, seed, replay, ctl):
             meta[rep["case"]["id"]] = rep["exp"]
     else:
         want = {"gen1": 3500 if quick else 10 ** 9, "gen2": 2000 if quick else 10 ** 9, "gen3": 2000 if quick else 40000,
-                "genI": 1500 if quick else 10 ** 9}
-        for name in ("gen1", "gen2", "gen3", "genI"):
+                "genI": 1500 if quick else 10 ** 9, "genR": 1500 if quick else 10 ** 9, "genK": 500 if quick else 10 ** 9,
+                "genS": 10 ** 9}
+        for name in REPLAYED:
             pool = exported[name]
-            if name != "gen1":
+            if name not in ("gen1", "genS"):
                 pool = [p for p in pool if ncuts(p) >= 2]
             chosen = []
+            if name == "genR":
+                # always include, for every budget and every run length k = 1 .. MaxRetries + 1, the plain scripts: a first
+                # body that brings an id across, k resumed bodies that end at offset 0, every reconnect answered 200
+                plain = [p for p in pool if run_length(p) is not None and all(r["outs"] == ["ok"] for r in p["exp"]["recon"])]
+                chosen = rng.sample(plain, min(500 if quick else len(plain), len(plain)))
+                have = {(p["cfg"]["mr"], run_length(p)) for p in chosen}
+                for p in plain:
+                    if (p["cfg"]["mr"], run_length(p)) not in have:
+                        have.add((p["cfg"]["mr"], run_length(p)))
+                        chosen.append(p)
+                ids_ = {id(p) for p in chosen}
+                pool = [p for p in pool if id(p) not in ids_]
             if name == "genI":
                 # always include scripts that use all six cuts and that the model completes: more fruitless bodies in
                 # total than the budget allows in a row, yet never that many in a row
@@ -510,20 +599,40 @@ def _run(tier, seed, replay, ctl):
     v.cov["distinct_nontrivial"] = len(distinct)
     v.cov["cut_classes_exercised"] = len(cut_classes)
     v.cov["multi_cut_scenarios"] = sum(1 for r in rows if r["level"] != "scan" and sum(1 for b in r["bodies"] if b["knd"] != "none") >= 2)
+    runs, after = {}, {}
+    for r in rows:
+        if r["level"] == "scan":
+            continue
+        k = run_length({"exp": r, "cfg": r["cfg"]})
+        if k:
+            key = "mr=%d" % r["mr"]
+            runs.setdefault(key, set()).add(k + r.get("more", 0))
+        for x in r["recon"]:
+            for a, b in zip(x["outs"], x["outs"][1:] + [None]):
+                if a in TRANSIENT:
+                    after.setdefault(a, set()).add("last" if b is None else "retried")
+    v.cov["empty_resumption_run_lengths_after_progress"] = {k: sorted(x) for k, x in sorted(runs.items())}
+    v.cov["stuck_server_scenarios"] = sum(1 for r in rows if r["level"] != "scan" and r["cfg"].get("tail") == "stuck")
+    v.cov["transient_statuses_answering_a_reconnect"] = {k: sorted(x) for k, x in sorted(after.items())}
     v.cov["reconnect_answers_seen"] = sorted({o for r in rows if r["level"] != "scan" for x in r["recon"] for o in x["outs"]})
     v.cov["byte_offsets_enumerated"] = {rid: sum(1 for r in rows if r["level"] == "byte" and r["id"].startswith(rid + "/")) for rid, _ in refs} if not replay else {}
     v.cov["without_model_expectation"] = noexp
     v.cov["rule"] = ("abs = TLC-exported terminal behaviours of the as-is StreamCli.tla (every single-cut behaviour over kind x id shape x id "
-                     "spelling x M in {2,3} x MaxRetries in {0,1,2}; two- and three-cut behaviours of reduced configurations; quick tier: one per "
+                     "spelling x M in {2,3} x MaxRetries in {0,1,2}; two- and three-cut behaviours of reduced configurations; runs of 1..MaxRetries+1 "
+                     "resumed bodies ending at offset 0, MaxRetries in {1,2,3}, against a server that recovers and against a stuck one; every "
+                     "answer sequence over the status class {429,500,502,503,504} + transport error + {404,403,501}; quick tier: one per "
                      "abstract class plus a seeded sample), byte = every byte offset of the first body of each reference stream x {read error, "
                      "clean EOF} on a real session, scan = the same offsets through scanEvents alone; distinct = (configuration, bodies served "
                      "with their cuts, reconnects with their answers); non-trivial = at least one body was cut")
-    ran = {n: sum(1 for c in cases if c["id"].startswith(n + ".")) for n in ("gen1", "gen2", "gen3", "genI")}
+    ran = {n: sum(1 for c in cases if c["id"].startswith(n + ".")) for n in REPLAYED}
     v.cov["behaviours_replayed"] = ran
     v.cov["exhaustive_parts"] = {"single_cut_behaviours": (not replay) and ran["gen1"] == len(exported["gen1"]),
                                  "two_cut_behaviours_reduced_cfg": (not replay) and ran["gen2"] == sum(1 for p in exported["gen2"] if ncuts(p) >= 2),
                                  "three_cut_behaviours_reduced_cfg": (not replay) and ran["gen3"] == sum(1 for p in exported["gen3"] if ncuts(p) >= 2),
                                  "interleaved_progress_scripts_reduced_cfg": (not replay) and ran["genI"] == sum(1 for p in exported["genI"] if ncuts(p) >= 2),
+                                 "empty_resumption_runs_reduced_cfg": (not replay) and ran["genR"] == sum(1 for p in exported["genR"] if ncuts(p) >= 2),
+                                 "stuck_server_runs_reduced_cfg": (not replay) and ran["genK"] == sum(1 for p in exported["genK"] if ncuts(p) >= 2),
+                                 "answer_sequences_over_status_class": (not replay) and ran["genS"] == len(exported["genS"]),
                                  "byte_offsets_of_reference_bodies": not replay}
     v.cov["exhaustive"] = all(v.cov["exhaustive_parts"].values())
     shown = 0
